@@ -27,9 +27,10 @@ type Listener struct {
 	Host       string `json:"host"`
 	Port       int    `json:"port"`
 	Path       string `json:"path"`
-	MaxAccept  int    `json:"max_accept"`  // the application stops accepting after this many connections
-	CloseAfter int    `json:"close_after"` // close once this many were accepted; -1 = only when the system is idle
-	NoClose    bool   `json:"no_close"`    // the application never closes this listener (it goes away with the connection)
+	MaxAccept  int    `json:"max_accept"`            // the application stops accepting after this many connections
+	CloseAfter int    `json:"close_after"`           // close once this many were accepted; -1 = only when the system is idle
+	NoClose    bool   `json:"no_close"`              // the application never closes this listener (it goes away with the connection)
+	CloseTwice bool   `json:"close_twice,omitempty"` // Close is called a second time after the first one returned
 }
 
 // Open is one forwarded channel open sent by the server.
@@ -93,6 +94,9 @@ func gen(r *rand.Rand, prop, tier string, index int) any {
 		}
 		if l.CloseAfter == -1 && r.IntN(4) == 0 {
 			l.NoClose = true
+		}
+		if !l.NoClose && r.IntN(5) == 0 {
+			l.CloseTwice = true
 		}
 		s.Listeners = append(s.Listeners, l)
 	}
@@ -200,6 +204,8 @@ type lstate struct {
 	registered   bool
 	closeCalled  bool
 	closeDone    bool
+	close2Called bool
+	close2Done   bool
 	closeErr     error
 	acceptorDone bool
 	accepted     int
@@ -387,6 +393,15 @@ func (r *run) listenerTask(i int) {
 		return
 	}
 	st.postAccept = "error: " + err.Error()
+	if l.CloseTwice {
+		// closing a closed listener returns as well (with or without an error)
+		st.close2Called = true
+		rt.Event("listener%d second Close called", i)
+		ln.Close()
+		st.close2Done = true
+		rt.Event("listener%d second Close returned", i)
+		rt.Probe("listener-closed-twice")
+	}
 }
 
 // checkDelivered reads the id the server wrote and checks the open was meant
@@ -458,6 +473,10 @@ func (r *run) onIdle() bool {
 					}
 				}
 				r.c.Violate(Prop, oracle, "Close of listener %d (%s %s) never returned: the system is quiescent with Close still blocked; %d connections accepted, %d forwarded opens for it unanswered. Blocked tasks: %v", i, l.network(), l.addr(), st.accepted, pend, r.c.Sim.Unfinished())
+				return false
+			}
+			if st.close2Called && !st.close2Done {
+				r.c.Violate(Prop, "close-hang", "the second Close of listener %d (%s %s) never returned. Blocked tasks: %v", i, l.network(), l.addr(), r.c.Sim.Unfinished())
 				return false
 			}
 			if st.closeDone && st.postAccept == "" {
